@@ -880,6 +880,11 @@ class CloneAnalysis:
                 continue
             k, v = L.expand(call.args[0], cn), L.expand(call.args[1], cn)
             mk = match("$x.id", k)
+            vl = L.lab(v, cn, {})
+            if vl.kind in ('SRC', 'SELF', 'SRCS', 'MEMBERS', 'SRCMAP'):
+                self.refute(f, call, call, f"`{src(call)}` puts `{src(v)}`, an object of the source side that is NOT tested to be outside, "
+                                           f"into the clone map as a non-copy: the rebuilt relations of the copy then point into the source WBS")
+                continue
             if not (mk and same(mk['x'], v)):
                 self.undecided(f, call, call, "outside task is not registered under its own id (`setdefault(x.id, x)`)")
                 continue
